@@ -596,7 +596,13 @@ func runFrame(fr *frame) {
 		fr.panicking = true
 		fr.panic = recover()
 		switch fr.panic.(type) {
-		case engineAbort, pathEnd, assertFail:
+		case engineAbort:
+			if d := len(fr.i.stack); d >= fr.i.panicDepth {
+				fr.i.panicDepth = d
+				fr.i.panicStack = fr.i.stackString()
+			}
+			panic(fr.panic)
+		case pathEnd, assertFail:
 			panic(fr.panic) // not visible to the target program
 		}
 		if d := len(fr.i.stack); d >= fr.i.panicDepth {
